@@ -105,3 +105,46 @@ def slice_conversions(f, buf):
                     seen[key] = (g, ev[1], ast.unparse(slices[0]), guarded, ev[2])
         out.extend(seen.values())
     return out
+
+
+def evaluate_decode_length(f):
+    """Bounded evaluation (sa/evalexpr.py) of ber.decode_length on the length octets X.690 8.1.3 allows -- short form, minimal and non-minimal long forms -- followed
+    by the contents, and on every proper prefix of them.  Expected: the complete header plus contents -> (length, offset behind the length octets); a prefix that
+    ends inside the length octets -> OutOfByteDataError ("not yet known"); a complete header with contents missing -> MissingDataError.
+    -> (cases that held, undecided, first failure text or None, first undecided reason or None)"""
+    from . import evalexpr
+    pn = flow.param_names(f)
+    n_ok = n_und = 0
+    bad = und = None
+    headers = []
+    for n in (0, 1, 5, 127, 128, 129, 200, 255, 256, 300):
+        k = max(1, (n.bit_length() + 7) // 8)
+        if n <= 127:
+            headers.append((bytes([n]), n))
+        headers.append((bytes([0x80 | k]) + n.to_bytes(k, 'big'), n))            # minimal long form (also for n <= 127: a legal BER form)
+        headers.append((bytes([0x80 | (k + 1)]) + n.to_bytes(k + 1, 'big'), n))    # non-minimal long form
+        headers.append((bytes([0x84]) + n.to_bytes(4, 'big'), n))
+    for header, n in headers:
+        full = header + bytes(n)
+        cases = [(full, (n, len(header))), (full + b'\x00\x01', (n, len(header)))]
+        cases += [(header[:k], 'OutOfByteDataError') for k in range(0, len(header))]
+        if n > 0:
+            cases += [(header, 'MissingDataError'), (header + bytes(n - 1), 'MissingDataError')]
+        for data, want in cases:
+            env = {pn[0]: data, pn[1]: 0}
+            if len(pn) > 2:
+                env[pn[2]] = True
+            try:
+                got, _e = evalexpr.run_function(f, env)
+                got = tuple(got) if isinstance(got, (tuple, list)) else got
+            except evalexpr.Raised as e:
+                got = e.name
+            except (evalexpr.Unsupported, KeyError, TypeError) as e:
+                n_und += 1
+                und = und or 'decode_length(%s): %s' % (data.hex(), e)
+                continue
+            if got != want:
+                bad = bad or 'decode_length(%s, 0) gives %s, expected %s (length octets %s announce %d contents octets)' % (data.hex() or "b''", got, want, header.hex(), n)
+            else:
+                n_ok += 1
+    return n_ok, n_und, bad, und
